@@ -352,6 +352,10 @@ pub struct InvalidCase {
     pub silent_peer: bool,
     pub text_as_binary: bool,
     pub schedule: Vec<u8>,
+    /// the peer has stopped reading before it sends the invalid message: the endpoint's sink is not writable and frames of the
+    /// bystander stream are waiting in its outbound queue
+    #[serde(default)]
+    pub stalled_sink: bool,
 }
 
 pub fn run_invalid(c: &InvalidCase) -> Outcome {
@@ -361,7 +365,14 @@ pub fn run_invalid(c: &InvalidCase) -> Outcome {
     let mut case = build(&C10Case { seq: vec![], rwnd: 3, binds_enabled: true, schedule: c.schedule.clone() });
     // replace the phase-2 traffic by the invalid message
     case.events = vec![RawEvent { when: Trigger::Quiescent, what: What::Wake(1) }, RawEvent { when: Trigger::AfterEvent(0), what: What::Inject { from: 1, msg: RawMsg::Bytes(c.bytes.clone()) } }];
-    if c.silent_peer {
+    if c.stalled_sink {
+        case.events = vec![
+            RawEvent { when: Trigger::Quiescent, what: What::Wedge { side: 0 } },
+            RawEvent { when: Trigger::AfterEvent(0), what: What::Wake(1) },
+            RawEvent { when: Trigger::AfterEvent(1), what: What::Inject { from: 1, msg: RawMsg::Bytes(c.bytes.clone()) } },
+        ];
+    }
+    if c.silent_peer || c.stalled_sink {
         case.raw.as_mut().unwrap().answer_close = false;
     }
     let run = run_case(&case);
@@ -370,7 +381,7 @@ pub fn run_invalid(c: &InvalidCase) -> Outcome {
     }
     let a = Analysis::new(&case, &run);
     match &run.task_exit[0] {
-        None => return Outcome::violation(format!("c10-invalid-hang{}", if c.silent_peer { ":silent-peer" } else { "" }), format!("after the invalid message {:02x?} the connection task never finished; blocked: {:?}; tail: {}", c.bytes, run.blocked_tasks(), a.ctx(14))),
+        None => return Outcome::violation(format!("c10-invalid-hang{}{}", if c.silent_peer { ":silent-peer" } else { "" }, if c.stalled_sink { ":stalled-sink" } else { "" }), format!("after the invalid message {:02x?} the connection task never finished; blocked: {:?}; tail: {}", c.bytes, run.blocked_tasks(), a.ctx(14))),
         Some(Ok(())) => return Outcome::violation("c10-invalid-no-error", format!("invalid message {:02x?} ended the connection without an error", c.bytes)),
         Some(Err(e)) => {
             if !e.contains("InvalidFrame") {
@@ -384,7 +395,7 @@ pub fn run_invalid(c: &InvalidCase) -> Outcome {
     if !stuck.is_empty() {
         return Outcome::violation("c10-invalid-pending-ops", format!("after the invalid message {:02x?} these operations never resolved: {stuck:?}; tail: {}", c.bytes, a.ctx(14)));
     }
-    Outcome::pass(true, vec![if c.silent_peer { "silent-peer" } else { "peer-answers-close" }])
+    Outcome::pass(true, vec![if c.stalled_sink { "stalled-sink" } else if c.silent_peer { "silent-peer" } else { "peer-answers-close" }])
 }
 
 pub fn c10(ctx: &Ctx, rep: &mut Report) {
@@ -531,7 +542,7 @@ pub fn c10(ctx: &Ctx, rep: &mut Report) {
                 2 => (prop::sample::select(vec![0u8, 2, 4, 255]), any::<[u8; 4]>()).prop_map(|(t, id)| { let mut v = vec![0x75]; v.extend(id); v.push(t); v.extend([0, 1, 65]); v }),
                 2 => (0u8..7, prop::collection::vec(any::<u8>(), 4..8)).prop_map(|(op, mut v)| { v.insert(0, 0x70 | op); v.truncate(5 + (op as usize % 3)); v }),
             ];
-            (bytes, any::<bool>(), schedule(40)).prop_map(|(bytes, silent_peer, schedule)| InvalidCase { bytes, silent_peer, text_as_binary: false, schedule })
+            (bytes, any::<bool>(), prop::bool::weighted(0.3), schedule(40)).prop_map(|(bytes, silent_peer, stalled_sink, schedule)| InvalidCase { bytes, silent_peer, text_as_binary: false, schedule, stalled_sink })
         },
         run_invalid,
     );
